@@ -52,5 +52,6 @@ Definition deinterleave {A : Type} (d : A) (l : list A) : list A := deinterleave
 Definition interleave_bytes : list N -> list N := interleave_bytes_of il_F1 il_F2 il_K.
 Definition deinterleave_bytes : list N -> list N := deinterleave_bytes_of il_F1 il_F2 il_K.
 
-(** the instantiation at site number [k] of ConstsInterleave.il_sites (for the correspondence check) *)
-Definition il_site (k : nat) : N * N * N := nth k il_sites il_default.
+(** the template arguments at site number [k]: 0 = the header's defaults, 1.. = ConstsInterleave.il_sites
+    (decoder, modulator, m17-mod.cpp in source order); used by the correspondence check *)
+Definition il_site (k : nat) : N * N * N := nth k (il_default :: il_sites) il_default.
